@@ -218,10 +218,21 @@ func (p *Pool) ReserveID() uint64 {
 // NewCert issues a certificate over key k with the given validity fields and
 // KeyId text.
 func (p *Pool) NewCert(id uint64, k *KeyEnt, va, vb uint64, kid, window, kidKind string) (*CertEnt, error) {
+	// fields no shim rule mentions vary with the id: host certificates (cmd/gen-hostcert issues them with YSSHCA
+	// KeyIds), the unset type, no principals, critical options
+	ct, prins, perms := uint32(ssh.UserCert), []string{"user"}, ssh.Permissions{Extensions: map[string]string{"permit-pty": ""}}
+	switch {
+	case id%5 == 3:
+		ct, prins, perms = ssh.HostCert, []string{"host.example.com"}, ssh.Permissions{}
+	case id%7 == 4:
+		ct = 0
+	case id%11 == 6:
+		prins, perms = nil, ssh.Permissions{CriticalOptions: map[string]string{"force-command": "true"}}
+	}
 	c := &ssh.Certificate{
-		Key: k.Pub, Serial: id, CertType: ssh.UserCert, KeyId: kid,
-		ValidPrincipals: []string{"user"}, ValidAfter: va, ValidBefore: vb,
-		Permissions: ssh.Permissions{Extensions: map[string]string{"permit-pty": ""}},
+		Key: k.Pub, Serial: id, CertType: ct, KeyId: kid,
+		ValidPrincipals: prins, ValidAfter: va, ValidBefore: vb,
+		Permissions: perms,
 	}
 	if err := c.SignCert(rand.Reader, p.CA); err != nil {
 		return nil, err
